@@ -69,7 +69,7 @@ def run(ctx):
     n = 20000 if ctx.thorough else 2000
     tr = ctx.path("trace.ndjson")
     ctx.run_bin(binary, ["memsec-trace", "--seed", ctx.seed, "--n", n, "--maxlen", 64 if ctx.thorough else 40,
-                         "--single", 72 if ctx.thorough else 24, "--out", tr])
+                         "--single", 72 if ctx.thorough else 24, "--long", 1024 if ctx.thorough else 300, "--out", tr])
     ok, matched, total, first = ctx.tlc_trace("crypto", "TraceMemsec", "TraceMemsec.cfg", tr)
     ctx.cov["traces_validated_against_impl"] += 1
     ctx.cov["evaluations"] += total
